@@ -204,6 +204,7 @@ C14aCase gen_c14a(const std::string& part, const std::string& tier, uint64_t see
   const ZoneShape& sh = shapes[c.base];
   int n = static_cast<int>(r.pick(std::vector<int>{60, 200, 200, 600, 2000}));
   if (tier != "thorough") n = std::min(n, 600);
+  if (r.chance(0.01)) n = 6000;   // state that only flips after thousands of calls on one zone (counters, saturation)
   // Locality: histories revisit a few neighbourhoods so that hints are hit, missed and overwritten.
   std::vector<Query> pool;
   int npool = static_cast<int>(r.range(4, 40));
@@ -218,7 +219,13 @@ C14aCase gen_c14a(const std::string& part, const std::string& tier, uint64_t see
       }
     } else s.q = gen_query(&r, sh, false);
     s.check = true;
-    if (r.chance(0.12)) { s.zone = static_cast<int>(r.range(1, 3)); s.check = false; }   // a call on another zone in between
+    // After a call on another zone, half of the time the very same question is put to the subject (state keyed by the
+    // arguments - or by the address of the caller's time_zone object - but not by the zone would answer for the wrong zone).
+    if (!c.steps.empty() && c.steps.back().zone != 0 && r.chance(0.5)) s.q = c.steps.back().q;
+    if (r.chance(0.12)) {   // a call on another zone in between; half of the time with the question just put to the subject
+      s.zone = static_cast<int>(r.range(1, 3)); s.check = false;
+      if (!c.steps.empty() && r.chance(0.5)) s.q = c.steps.back().q;
+    }
     c.steps.push_back(s);
   }
   c.explicit_steps = true;
@@ -241,7 +248,7 @@ Outcome exec_c14a(const C14aCase& cc, bool keep_log, Stats* stats) {
   // zone, and so is the reversed history.  "Earlier calls" therefore differ in everything a call could leave
   // behind: the zone's hints, the name cache, per-thread state and ambient C state such as errno.
   cctz::time_zone subject;
-  cctz::time_zone decoy_zone, decoy_fixed;
+  cctz::time_zone decoy_zone, decoy_fixed, cur;
   bool decoy_loaded = false;
   uint64_t lh = 0x14;
   std::vector<std::string> log;
@@ -281,10 +288,12 @@ Outcome exec_c14a(const C14aCase& cc, bool keep_log, Stats* stats) {
         // Decoy: the same kind of call on a different zone; its answer is not judged here.
         if (c.steps[i].zone == 1 && !decoy_loaded) { ld.load(shipped_bytes(c.base == "shipped:Europe/London" ? "Asia/Tokyo" : "Europe/London"), &decoy_zone, "decoy"); decoy_loaded = true; }
         const cctz::time_zone& dz = c.steps[i].zone == 1 ? decoy_zone : (c.steps[i].zone == 2 ? cctz::utc_time_zone() : decoy_fixed);
-        got[i] = run_query(dz, q);
+        cur = dz;   // every call of the history goes through ONE time_zone variable that is re-bound as needed
+        got[i] = run_query(cur, q);
         continue;
       }
-      got[i] = run_query(subject, q);
+      cur = subject;
+      got[i] = run_query(cur, q);
     }
   });
   for (size_t i = 0; i < c.steps.size(); ++i) {
